@@ -65,7 +65,7 @@ var commonAssumptions = []string{
 }
 
 var realComponents = []string{"every non-test file of package shmipc from /repo's working tree (instrumented, otherwise unmodified)", "mmap/memfd/tmpfs (real)"}
-var stubComponents = []string{"kernel stream sockets, epoll, connect/accept, SCM_RIGHTS (simulated kernel ssys)", "sync primitives (ssync shims)", "sync/atomic (decision point + real atomic)", "gopool (plain simulated goroutines)", "sync.Pool (deterministic LIFO)", "clock/timers (testing/synctest)", "math/rand, os.Getpid"}
+var stubComponents = []string{"kernel stream sockets, epoll, connect/accept, SCM_RIGHTS (simulated kernel ssys)", "sync primitives (ssync shims)", "sync/atomic (decision point + real atomic)", "gopool (plain simulated goroutines)", "sync.Pool (deterministic LIFO)", "clock (testing/synctest fake clock)", "timers and tickers (simulator-owned event heap, fired by the scheduler root in (deadline, creation) order)", "math/rand, os.Getpid"}
 
 var props = map[string]*propSpec{}
 
